@@ -365,6 +365,33 @@ struct PayloadTypeObj : Obj
     }
 };
 
+// A generic Payload: the 32 bit type word through its three setters, in front of the data bytes (which they must not touch)
+struct GenericPayloadObj : Obj
+{
+    std::unique_ptr<Payload> p{std::make_unique<Payload>(PayloadType(0), nullptr, 0)};
+    std::vector<uint8_t> raw() const override
+    {
+        const uint32_t v = p->getType().getType();
+        std::vector<uint8_t> out{static_cast<uint8_t>(v >> 24), static_cast<uint8_t>(v >> 16), static_cast<uint8_t>(v >> 8), static_cast<uint8_t>(v)};
+        out.insert(out.end(), p->getRawPayload(), p->getRawPayload() + p->getLength());
+        return out;
+    }
+    void load(const std::vector<uint8_t>& b) override
+    {
+        const uint32_t t = (static_cast<uint32_t>(b[0]) << 24) | (b[1] << 16) | (b[2] << 8) | b[3];
+        // type 0 means "invalid" and drops the data: keep the type non-zero for the background
+        p = std::make_unique<Payload>(PayloadType(t ? t : 0x0101), b.data() + 4, b.size() - 4);
+        if (!t)
+            p->setType(PayloadType(0));
+    }
+    GenericPayloadObj()
+    {
+        RW("type", 4, p->getType().getType(), p->setType(PayloadType(static_cast<uint32_t>(v))));
+        RW("messageType", 1, p->getMessageType(), p->setMessageType(static_cast<CmpHeader::MessageType>(v)));
+        RW("rawPayloadType", 1, p->getRawPayloadType(), p->setRawPayloadType(static_cast<uint8_t>(v)));
+    }
+};
+
 // A Packet has no raw image: its logical state is serialised in a fixed order so that the same
 // field machinery applies (version 1, device id 2, stream id 1, sequence counter 2, timestamp 8,
 // interface id 4, vendor id 2, common flags 1, segment type 1).
@@ -450,6 +477,7 @@ std::unique_ptr<Obj> make(const std::string& cls)
     if (cls == "tecmpIf") return std::make_unique<TecmpIfObj>();
     if (cls == "tecmpCm") return std::make_unique<TecmpCmObj>();
     if (cls == "payloadType") return std::make_unique<PayloadTypeObj>();
+    if (cls == "payload") return std::make_unique<GenericPayloadObj>();
     if (cls == "packet") return std::make_unique<PacketObj>();
     return nullptr;
 }
